@@ -138,6 +138,63 @@ pub fn instances(tier: Tier) -> Vec<Wcnf> {
             }
         }
     }
+    out.extend(wide_instances(tier));
+    out
+}
+
+/// Instances with 4-8 soft clauses (deeper totaliser trees, merge networks of the cardinality
+/// encoding): unit softs of both polarities over 4-6 variables with structured hard parts.
+fn wide_instances(tier: Tier) -> Vec<Wcnf> {
+    let mut out = vec![];
+    let ns: Vec<usize> = if tier.quick() { vec![4, 5] } else { vec![4, 5, 6] };
+    for n in ns {
+        let vars: Vec<i32> = (1..=n as i32).collect();
+        let hard_sets: Vec<Vec<Vec<i32>>> = vec![
+            vec![],
+            // at least one
+            vec![vars.clone()],
+            // at most one (pairwise)
+            vars.iter().flat_map(|a| vars.iter().filter(move |b| *b > a).map(move |b| vec![-a, -b])).collect(),
+            // chain x1 -> x2 -> ... and not all
+            vars.windows(2).map(|w| vec![-w[0], w[1]]).chain([vars.iter().map(|v| -v).collect()]).collect(),
+            // exactly: x1 or x2, not both; x3 = x4
+            vec![vec![1, 2], vec![-1, -2], vec![-3, 4], vec![3, -4]],
+            // unsatisfiable
+            vec![vec![1], vec![-1, 2], vec![-2]],
+        ];
+        // soft patterns: polarity per variable (+ / - / both / none), weights
+        let patterns: Vec<Vec<u8>> = vec![
+            vec![1; n],                                         // all positive
+            vec![2; n],                                         // all negative
+            (0..n).map(|i| if i % 2 == 0 { 1 } else { 2 }).collect(), // alternating
+            (0..n).map(|i| if i < 2 { 3 } else { 1 }).collect(),      // both polarities on x1, x2
+            (0..n).map(|i| if i == 0 { 0 } else { 2 }).collect(),     // none on x1
+        ];
+        let weightings: Vec<Vec<u32>> = if tier.quick() {
+            vec![vec![1], vec![2], vec![1, 2, 3]]
+        } else {
+            vec![vec![1], vec![2], vec![1, 2, 3], vec![5, 1], vec![3, 3, 1]]
+        };
+        for hs in &hard_sets {
+            for pat in &patterns {
+                for ws in &weightings {
+                    let mut soft = vec![];
+                    for (i, p) in pat.iter().enumerate() {
+                        let v = i as i32 + 1;
+                        if p & 1 != 0 {
+                            soft.push((ws[soft.len() % ws.len()], vec![v]));
+                        }
+                        if p & 2 != 0 {
+                            soft.push((ws[soft.len() % ws.len()], vec![-v]));
+                        }
+                    }
+                    // one binary soft clause on top
+                    soft.push((ws[0], vec![1, -(n as i32)]));
+                    out.push(Wcnf { n, hard: hs.clone(), soft });
+                }
+            }
+        }
+    }
     out
 }
 
@@ -156,7 +213,7 @@ impl Property for C15 {
     }
     fn rule(&self, tier: Tier) -> String {
         format!(
-            "{} WCNF instances over <=3 variables: hard parts with 0-2 clauses of width <=2 (incl. unsatisfiable hard parts), 1-3 soft clauses of width 0-2 (empty, unit, duplicate, complementary and root-decided soft clauses) with weights from {{1,2,(3,)5}}, top = 100; every instance is run through the real binary with both --upper-bound-encoding values and two seeds (4 processes per case, 2 s wall cap each); oracle: brute force over 2^n assignments: s UNSATISFIABLE iff the hard clauses are unsatisfiable, otherwise s OPTIMUM FOUND, last o line = true minimum, the v line satisfies the hard clauses and costs exactly that; both encodings agree. A case = one instance; non-trivial = the optimum is neither 0 nor the sum of all weights.",
+            "{} WCNF instances: (a) over <=3 variables: hard parts with 0-2 clauses of width <=2 (incl. unsatisfiable hard parts), 1-3 soft clauses of width 0-2 (empty, unit, duplicate, complementary and root-decided soft clauses) with weights from {{1,2,(3,)5}}; (b) over 4-6 variables: 4-9 soft clauses (unit softs of both polarities in 5 patterns plus one binary soft clause; equal weights 1, equal weights 2, mixed weights) x 6 structured hard parts (none, at-least-one, at-most-one, implication chain, exactly-one + equality, unsatisfiable); top = 100; every instance is run through the real binary with both --upper-bound-encoding values and two seeds (4 processes per case, 2 s wall cap each); oracle: brute force over 2^n assignments: s UNSATISFIABLE iff the hard clauses are unsatisfiable, otherwise s OPTIMUM FOUND, last o line = true minimum, the v line satisfies the hard clauses and costs exactly that; both encodings agree. A case = one instance; non-trivial = the optimum is neither 0 nor the sum of all weights.",
             instances(tier).len()
         )
     }
